@@ -6,7 +6,7 @@
 
      Esc        reader/utils/sql_select/objects.go  StringVal.String  (a SEQUENCE of strings.Replace calls: order matters)
      LikeText   reader/logql/logql_transpiler_v2/clickhouse_planner/planner_line_filter.go  doLike
-                (enquote, strings.Trim(.., "'"), replace % and _, wrap in '% ... %')
+                (escape \ % _ for LIKE, enquote, strip the two enclosing quotes, wrap in '% ... %')
      Lex        ClickHouse's single-quoted literal: Lexer.cpp + ReadHelpers.cpp parseComplexEscapeSequence
                 (the reference behaviour of harness/chsql/lexer.go readQuoted)
      LikeDecode ClickHouse's likePatternToRegexp (harness/chsql/funcs_string.go likeToRegexp)
@@ -52,18 +52,12 @@ Esc(s) == ApplyTable(s, EscTable, 1)
 Quote(s) == <<"sq">> \o Esc(s) \o <<"sq">>                 \* return "'" + res + "'"
 
 \* ---- doLike -------------------------------------------------------------------------------------------------
-RECURSIVE TrimLeft(_, _)
-TrimLeft(s, c) == IF s # <<>> /\ Head(s) = c THEN TrimLeft(Tail(s), c) ELSE s
-RECURSIVE TrimRight(_, _)
-TrimRight(s, c) == IF s # <<>> /\ s[Len(s)] = c THEN TrimRight(SubSeq(s, 1, Len(s) - 1), c) ELSE s
-Trim(s, c) == TrimRight(TrimLeft(s, c), c)                 \* strings.Trim(s, "'")
-
 LikeContent(s) ==
-    LET enq == Quote(s)                                    \* l.enquoteStr(l.Val)
-        t1  == Trim(enq, "sq")                             \* strings.Trim(enqVal, `'`)
-        t2  == ReplaceAll(t1, "pct", <<"bs", "pct">>)      \* strings.Replace(enqVal, "%", "\\%", -1)
-        t3  == ReplaceAll(t2, "us", <<"bs", "us">>)        \* strings.Replace(enqVal, "_", "\\_", -1)
-    IN t3
+    LET l1  == ReplaceAll(s, "bs", <<"bs", "bs">>)         \* strings.NewReplacer(`\`, `\\`, "%", `\%`, "_", `\_`).Replace(l.Val):
+        l2  == ReplaceAll(l1, "pct", <<"bs", "pct">>)      \* one pass over the value; the same as these three passes,
+        l3  == ReplaceAll(l2, "us", <<"bs", "us">>)        \* backslash first
+        enq == Quote(l3)                                   \* l.enquoteStr(likeVal)
+    IN SubSeq(enq, 2, Len(enq) - 1)                        \* enqVal[1 : len(enqVal)-1]
 LikeText(s) == <<"sq", "pct">> \o LikeContent(s) \o <<"pct", "sq">>      \* '%%%s%%'
 
 \* ---- ClickHouse string literal -------------------------------------------------------------------------------
